@@ -49,6 +49,16 @@ Theorem C02_missing_bucket : forall c s b k,
 Proof. exact law_missing_bucket. Qed.
 Print Assumptions C02_missing_bucket.
 
+(* with auto-bucket on, an absent bucket is created on first use only under a valid name: an
+   invalid name is refused with InvalidBucketName and nothing is created *)
+Theorem C02_missing_bucket_auto_invalid_name : forall c s b k,
+  cfg_auto_bucket c = true -> get_bucket s b = None -> validate b = false ->
+  snd (step c s (OGet b k None)) = RErr EInvalidBucketName /\
+  step c s (ODeleteBucket b) = (s, RErr EInvalidBucketName) /\
+  (forall body m, step c s (OPut b k body m) = (s, RErr EInvalidBucketName)).
+Proof. exact law_missing_bucket_auto_invalid. Qed.
+Print Assumptions C02_missing_bucket_auto_invalid_name.
+
 (* re-creating a bucket answers BucketAlreadyExists *)
 Theorem C02_recreate_conflict : forall c s b bk,
   get_bucket s b = Some bk -> validate b = true ->
